@@ -10,7 +10,7 @@ VROOT = Path(__file__).resolve().parent.parent
 REPO = os.environ.get("VERIF_REPO", "/repo")
 root = VROOT / "seeded"
 ids = sys.argv[1:] or sorted(p.name for p in root.iterdir() if p.is_dir())
-out_path = root / "DETECTION.json"
+out_path = Path(os.environ.get("RESEED_OUT") or root / "DETECTION.json")      # RESEED_OUT: e.g. a run under another VERIF_SEED
 res = json.loads(out_path.read_text()) if out_path.exists() else {}
 
 
